@@ -195,9 +195,16 @@ class FieldData:
         (renaming_connected and self.vlevel >= 1)):
       # (the new name of a connected line is read when the line is registered
       # again: an invalid name must be refused before the line is unregistered)
+      new_tag = fieldname not in self._datatype
       self._field_or_default_datatype(fieldname, value)
-      gfapy.Field._validate_gfa_field(value, self._field_datatype(fieldname),
-          fieldname)
+      try:
+        gfapy.Field._validate_gfa_field(value, self._field_datatype(fieldname),
+            fieldname)
+      except Exception:
+        if new_tag and fieldname not in self._data:
+          # (a refused value does not define the datatype of the tag)
+          self._datatype.pop(fieldname, None)
+        raise
     if renaming_connected:
       if self.__class__.STORAGE_KEY == "name":
         if gfapy.is_placeholder(value) and self.version == "gfa2" and \
